@@ -46,12 +46,12 @@ DUMPS = {
     ('C19', 'quick'): [(1, 1, 'Chars3', 2, 0), (1, 2, 'Chars3', 2, 0), (2, 1, 'Chars3', 2, 0), (2, 2, 'Chars2', 1, 0)],
     ('C19', 'thorough'): [(1, 1, 'Chars3', 2, 0), (1, 2, 'Chars3', 2, 0), (2, 1, 'Chars3', 2, 0), (1, 3, 'Chars3', 2, 0),
                           (3, 1, 'Chars3', 2, 0), (2, 2, 'Chars3', 1, 0)],
-    ('C18', 'quick'): [(1, 1, 'Chars3', 1, 0, 3), (1, 2, 'Chars3', 1, 0, 2), (2, 1, 'Chars3', 1, 0, 2), (2, 2, 'Chars3', 1, 8, 3)],
+    ('C18', 'quick'): [(1, 1, 'Chars3', 1, 0, 3), (1, 2, 'Chars3', 1, 0, 2), (2, 1, 'Chars3', 1, 0, 2), (2, 2, 'Chars3', 1, 9, 3)],
     ('C18', 'thorough'): [(1, 1, 'Chars3', 1, 0, 3), (1, 2, 'Chars3', 1, 0, 3), (2, 1, 'Chars3', 1, 0, 3),
-                          (2, 2, 'Chars2', 1, 0, 2), (2, 2, 'Chars3', 1, 11, 3), (3, 2, 'Chars3', 1, 9, 3)],
+                          (2, 2, 'Chars3', 1, 0, 2), (2, 2, 'Chars3', 1, 10, 3), (3, 2, 'Chars3', 1, 9, 3)],
 }
 MC_CFG = {('C19', 'quick'): ['MCScreen_quick.cfg'], ('C19', 'thorough'): ['MCScreen_quick.cfg', 'MCScreen_thorough.cfg', 'MCScreen_thorough2.cfg', 'MCScreen_thorough3.cfg'],
-          ('C18', 'quick'): ['MCAnsi_quick.cfg'], ('C18', 'thorough'): ['MCAnsi_thorough.cfg', 'MCAnsi_thorough2.cfg']}
+          ('C18', 'quick'): ['MCAnsi_quick.cfg'], ('C18', 'thorough'): ['MCAnsi_thorough.cfg', 'MCAnsi_thorough2.cfg', 'MCAnsi_thorough3.cfg']}
 
 SCREEN_ACTIONS = ['Put', 'PutAbs', 'Insert', 'InsertAbs', 'Fill', 'FillRegion', 'Cr', 'Lf', 'Crlf', 'Newline', 'CursorHome',
                   'CursorForcePosition', 'CursorBack', 'CursorDown', 'CursorForward', 'CursorUp', 'CursorUpReverse',
@@ -187,6 +187,7 @@ def dump_cfg(ctx, pid, conf):
         if maxlevel:                       # bounded input length: explicit step counter (MCAnsiB)
             consts.append(('MaxSteps', '= %d' % maxlevel))
             cons.append('StepBound')
+            invs[invs.index('Total')] = 'BTotal'      # see MCAnsiB
             module, spec = 'MCAnsiB', 'BSpec'
     else:
         consts.append(('MaxLevel', '= %d' % maxlevel))
@@ -987,7 +988,7 @@ def validate(ctx, traces, R, C, tag, procs=1, timeout=1500):
 def model_check(ctx, pid):
     out = []
     for cfg in MC_CFG[(pid, ctx.tier)]:
-        module = 'MCScreen' if pid == 'C19' else 'MCAnsiB' if 'BSpec' in open(os.path.join(tlc.SPEC, cfg)).read() else 'MCAnsi'
+        module = ('MCScreen' if pid == 'C19' else 'MCAnsi') + ('B' if 'BSpec' in open(os.path.join(tlc.SPEC, cfg)).read() else '')
         res = tlc.run(module, cfg, ctx.work, workers=NPROC, timeout=1700, outname=cfg + '.out', heap='8g')
         tlc.require_ok(res, cfg)
         if res['violated']:
@@ -1109,21 +1110,30 @@ def run_c19(ctx):
             raise tlc.TLCError('no transition of action %s in the dumped graphs' % a)
     # binding self-test 1: a transition whose expected post-state was corrupted must be noticed
     g, R, C, table = last
-    probe = Collector()
-    k = next(i for i in range(len(g.pre)) if g.labels[g.lab[i]][0] == 'PutAbs' and g.pre[i] != g.post[i])
-    good = g.expected(k)
-    name, args = g.labels[g.lab[k]]
-    screen_transition(Objects(), R, C, g.states[g.pre[k]], name, args, g.vi(k), good, probe)
-    ok_clean = not probe.fail
-    bad = [(e[0], (e[1][0] % R + 1, e[1][1]), e[2], e[3]) if R > 1 else (e[0], (e[1][0], e[1][1] % C + 1), e[2], e[3]) for e in good]
-    screen_transition(Objects(), R, C, g.states[g.pre[k]], name, args, g.vi(k), bad, probe)
-    bad2 = [(g.states[g.pre[k]][0],) + e[1:] for e in good]
-    n1 = len(probe.fail)
-    screen_transition(Objects(), R, C, g.states[g.pre[k]], name, args, g.vi(k), bad2, probe)
-    if R * C == 1 or not ok_clean or n1 == 0 or len(probe.fail) == n1:
-        raise tlc.TLCError('C19 self-test: a corrupted expected post-state was not noticed')
-    ctx.note('binding self-test: expected cursor / expected grid of one transition corrupted -> %s' % ', '.join(
-        f[0] for f in probe.fail))
+    if R * C == 1:
+        raise tlc.TLCError('C19 self-test needs a screen with more than one cell')
+    cands = [i for i in range(len(g.pre)) if g.labels[g.lab[i]][0] == 'PutAbs' and g.pre[i] != g.post[i]][:200]
+    noticed = None
+    for k in cands:
+        probe = Collector()
+        good = g.expected(k)
+        name, args = g.labels[g.lab[k]]
+        screen_transition(Objects(), R, C, g.states[g.pre[k]], name, args, g.vi(k), good, probe)
+        if probe.fail:
+            continue                      # the real code fails this one by itself: nothing to learn from corrupting it
+        bad = [(e[0], (e[1][0] % R + 1, e[1][1]), e[2], e[3]) if R > 1 else (e[0], (e[1][0], e[1][1] % C + 1), e[2], e[3]) for e in good]
+        screen_transition(Objects(), R, C, g.states[g.pre[k]], name, args, g.vi(k), bad, probe)
+        n1 = len(probe.fail)
+        bad2 = [(g.states[g.pre[k]][0],) + e[1:] for e in good]
+        screen_transition(Objects(), R, C, g.states[g.pre[k]], name, args, g.vi(k), bad2, probe)
+        if n1 == 0 or len(probe.fail) == n1:
+            raise tlc.TLCError('C19 self-test: a corrupted expected post-state was not noticed')
+        noticed = [f[0] for f in probe.fail]
+        break
+    if noticed is None:
+        ctx.note('binding self-test (transition): every candidate transition already fails on the real code; nothing to corrupt')
+    else:
+        ctx.note('binding self-test: expected cursor / expected grid of one transition corrupted -> %s' % ', '.join(noticed))
     # seeded random sequences on 24x80 and odd sizes, validated by TLC against ScreenAnsiTrace
     t0 = time.time()
     corpus = screen_traces(ctx, quick)
@@ -1178,44 +1188,55 @@ def run_c19(ctx):
 
 
 def trace_self_test(ctx, pid):
-    """a fixed run of the real object (operations the suspected defects do not touch) must be accepted; the same trace
-    with one observed field corrupted must be rejected with the clause of that field"""
+    """a fixed run of the real object must be accepted, and the same trace with one observed field corrupted must be
+    rejected with the clause of that field.  When the real code fails the fixed run by itself (the main corpus reports
+    that), a second, simpler run is tried; if that fails too there is nothing to corrupt."""
     import copy
     R, C = 3, 5
     if pid == 'C19':
-        script = [('op', 'FillRegion', [1, 2, 2, 4], 'x'), ('op', 'CursorHome', [2, 3], None), ('op', 'Put', [], u'\xe9'),
-                  ('op', 'InsertAbs', [1, 1], 'x'), ('op', 'Cr', [], None), ('op', 'Lf', [], None),
-                  ('op', 'CursorForward', [2], None), ('acc', 'dump', []), ('op', 'Lf', [], None), ('op', 'Lf', [], None)]
-        t = {'id': 'clean', 'ev': run_screen_script(R, C, 'latin-1', script)}
+        scripts = [[('op', 'FillRegion', [1, 2, 2, 4], 'x'), ('op', 'CursorHome', [2, 3], None), ('op', 'Put', [], u'\xe9'),
+                    ('op', 'InsertAbs', [1, 1], 'x'), ('op', 'Cr', [], None), ('op', 'Lf', [], None),
+                    ('op', 'CursorForward', [2], None), ('acc', 'dump', []), ('op', 'Lf', [], None), ('op', 'Lf', [], None)],
+                   [('op', 'PutAbs', [1, 2], 'x'), ('op', 'CursorHome', [2, 3], None), ('op', 'PutAbs', [2, 2], 'x'),
+                    ('op', 'CursorHome', [1, 1], None), ('op', 'PutAbs', [3, 3], 'x'), ('op', 'PutAbs', [3, 4], 'x'),
+                    ('acc', 'dump', [])]]
+        runs = [{'id': 'clean', 'ev': run_screen_script(R, C, 'latin-1', sc)} for sc in scripts]
+        wants = [{'corrupt-cursor': 'C19:insert_abs-cursor', 'corrupt-cell': 'C19:lf-frame', 'lost-row': 'C19:cr-shape'},
+                 {'corrupt-cursor': 'C19:cursor_home-cursor', 'corrupt-cell': 'C19:put_abs-frame', 'lost-row': 'C19:put_abs-shape'}]
     else:
-        syms = ['x', 'y', 'CR', 'LF', 'ESC', '[', '2', ';', '3', 'H', 'x', 'ESC', '[', 'K', 'ESC', '7', 'LF', 'LF', 'x', 'ESC', '8']
-        t = {'id': 'clean', 'ev': run_feed(R, C, 'utf-8', [(SYMCHR.get(x, x).encode('ascii'), [x]) for x in syms])}
-    a = copy.deepcopy(t); a['id'] = 'corrupt-cursor'
-    e = a['ev'][3]['obs']
-    e['cur'] = [e['cur'][0], e['cur'][1] % C + 1]
-    b = copy.deepcopy(t); b['id'] = 'corrupt-cell'
-    b['ev'][5]['obs']['rows'] = [[3, ['y'] * C]]
-    c = copy.deepcopy(t); c['id'] = 'lost-row'
-    c['ev'][4]['obs']['nrows'] = R - 1
-    extra = []
-    if pid == 'C18':
-        d = copy.deepcopy(t); d['id'] = 'residue'
-        d['ev'][9]['obs']['stack'] = [2]                  # after the final byte H
-        f = copy.deepcopy(t); f['id'] = 'cursor-off-screen'
-        f['ev'][10]['obs']['cur'] = [R + 1, 1]
-        extra = [d, f]
-    v, _ = validate(ctx, [t, a, b, c] + extra, R, C, 'selftest')
-    res = {k: v[k][0] for k in v}
-    if pid == 'C19':
-        want = {'clean': ('ok',), 'corrupt-cursor': ('C19:insert_abs-cursor',), 'corrupt-cell': ('C19:lf-frame',),
-                'lost-row': ('C19:cr-shape',)}
-    else:
-        want = {'clean': ('ok',), 'corrupt-cursor': ('drift:cursor',), 'corrupt-cell': ('drift:grid',), 'lost-row': ('C18:shape',),
-                'residue': ('C18:residue',), 'cursor-off-screen': ('C18:cursor',)}
-    bad = [k for k in want if res.get(k) not in want[k]]
-    if bad:
-        raise tlc.TLCError('binding self-test: trace verdicts %s, expected %s' % (res, want))
-    return res
+        inputs = [['x', 'y', 'CR', 'LF', 'ESC', '[', '2', ';', '3', 'H', 'x', 'ESC', '[', 'K', 'ESC', '7', 'LF', 'LF', 'x', 'ESC', '8'],
+                  ['x', 'y', 'x', 'ESC', '[', 'H', 'ESC', '[', '2', ';', '3', 'H', 'x', 'x', 'ESC', '[', 'm', 'x']]
+        runs = [{'id': 'clean', 'ev': run_feed(R, C, 'utf-8', [(SYMCHR.get(x, x).encode('ascii'), [x]) for x in syms])}
+                for syms in inputs]
+        wants = [{'corrupt-cursor': 'drift:cursor', 'corrupt-cell': 'drift:grid', 'lost-row': 'C18:shape', 'residue': 'C18:residue',
+                  'cursor-off-screen': 'C18:cursor'}] * 2
+    final_at = [9, 11]                                        # index of an event that completes a sequence (H)
+    tried = []
+    for ti, (t, want) in enumerate(zip(runs, wants)):
+        a = copy.deepcopy(t); a['id'] = 'corrupt-cursor'
+        e = a['ev'][3]['obs']
+        e['cur'] = [e['cur'][0], e['cur'][1] % C + 1]
+        b = copy.deepcopy(t); b['id'] = 'corrupt-cell'
+        b['ev'][5]['obs']['rows'] = [[3, ['y'] * C]]
+        c = copy.deepcopy(t); c['id'] = 'lost-row'
+        c['ev'][4]['obs']['nrows'] = R - 1
+        extra = []
+        if pid == 'C18':
+            d = copy.deepcopy(t); d['id'] = 'residue'
+            d['ev'][final_at[ti]]['obs']['stack'] = [2]      # after a final byte
+            f = copy.deepcopy(t); f['id'] = 'cursor-off-screen'
+            f['ev'][10]['obs']['cur'] = [R + 1, 1]
+            extra = [d, f]
+        v, _ = validate(ctx, [t, a, b, c] + extra, R, C, 'selftest')
+        res = {k: v[k][0] for k in v}
+        if res['clean'] != 'ok':
+            tried.append(res['clean'])
+            continue
+        bad = [k for k in want if res.get(k) != want[k]]
+        if bad:
+            raise tlc.TLCError('binding self-test: trace verdicts %s, expected %s' % (res, want))
+        return res
+    return {'skipped': 'the real code fails the fixed self-test runs by itself (%s)' % ', '.join(tried)}
 
 
 # ---------------------------------------------------------------------------------------------
@@ -1385,21 +1406,28 @@ def run_c18(ctx):
     if missing or len(syms_all) < 40:
         raise tlc.TLCError('dumped graphs lack transitions for %d (state, symbol) pairs, e.g. %s' % (len(missing), missing[:3]))
     ctx.drift += total.count['drift']
-    # binding self-test 1
+    # binding self-test 1: a transition whose expected post-state was corrupted must be noticed
     g, R, C = last
-    probe = Collector()
-    k = next(i for i in range(len(g.pre)) if g.labels[g.lab[i]][1][0] == 'H' and g.states[g.pre[i]][4] == 'NUMBER_2'
-             and g.pre[i] != g.post[i])
-    good = g.expected(k)
-    ansi_transition(Objects(), R, C, g.states[g.pre[k]], 'H', k, good, probe)
-    clean = not probe.fail and probe.count['drift'] == 0
-    bad = [e[:5] + ((1,),) for e in good]                # expected residue on the stack
-    ansi_transition(Objects(), R, C, g.states[g.pre[k]], 'H', k, bad, probe)
-    bad2 = [e[:4] + ('ELB', ()) for e in good]           # expected: sequence not completed
-    ansi_transition(Objects(), R, C, g.states[g.pre[k]], 'H', k, bad2, probe)
-    if not clean or probe.count['drift'] != 2:
-        raise tlc.TLCError('C18 self-test: a corrupted expected post-state was not noticed (%s)' % dict(probe.count))
-    ctx.note('binding self-test: expected stack / expected parser state of one transition corrupted -> noticed (2 of 2)')
+    cands = [i for i in range(len(g.pre)) if g.labels[g.lab[i]][1][0] == 'H' and g.states[g.pre[i]][4] == 'NUMBER_2'
+             and g.pre[i] != g.post[i]][:200]
+    done = False
+    for k in cands:
+        probe = Collector()
+        good = g.expected(k)
+        ansi_transition(Objects(), R, C, g.states[g.pre[k]], 'H', g.vi(k), good, probe)
+        if probe.fail or probe.count['drift']:
+            continue                      # the real code leaves the reference here by itself
+        bad = [e[:5] + ((1,),) for e in good]                # expected residue on the stack
+        ansi_transition(Objects(), R, C, g.states[g.pre[k]], 'H', g.vi(k), bad, probe)
+        n1 = probe.count['drift'] + len(probe.fail)
+        bad2 = [e[:4] + ('ELB', ()) for e in good]           # expected: sequence not completed
+        ansi_transition(Objects(), R, C, g.states[g.pre[k]], 'H', g.vi(k), bad2, probe)
+        if n1 != 1 or probe.count['drift'] + len(probe.fail) != 2:
+            raise tlc.TLCError('C18 self-test: a corrupted expected post-state was not noticed (%s)' % dict(probe.count))
+        done = True
+        break
+    ctx.note('binding self-test: expected stack / expected parser state of one transition corrupted -> noticed (2 of 2)' if done else
+             'binding self-test (transition): every candidate transition already leaves the reference on the real code; nothing to corrupt')
     # chunk independence: TLC -simulate behaviours + grammar-generated input, every split into <= 4 pieces
     t0 = time.time()
     inputs = []
